@@ -43,6 +43,27 @@ def oracle(case):
     x = np.asarray(ref.icdf(np.array([0.2, 0.5, 0.9])))
     if not np.array_equal(np.asarray(obj.cdf(x)), np.asarray(ref.cdf(x))):
         return (dict(sig, clause="evaluation"), "evaluation does not use the fixed value(s) %r" % fixed)
+    # ... checked against the documented closed form, independently of virocon's own parameter handling
+    def independent(o, when):
+        pars = {k: float(v) for k, v in o.parameters.items()}
+        positive = {"WeibullDistribution": ["alpha", "beta"], "LogNormalDistribution": ["sigma"], "NormalDistribution": ["sigma"],
+                    "ExponentiatedWeibullDistribution": ["alpha", "beta", "delta"], "GeneralizedGammaDistribution": ["m", "c", "lambda_"],
+                    "VonMisesDistribution": ["kappa"], "LogNormalNormFitDistribution": ["mu_norm", "sigma_norm"]}[cname]
+        if any(not (pars[q] > 0) for q in positive):
+            return None     # (an inadmissible estimate, e.g. gengamma c < 0 on foreign data, is C12's subject; the closed form does not apply)
+        doc = D.doc_cdf(cname, pars, x)
+        if doc is not None and not np.allclose(np.asarray(o.cdf(x), dtype=float), doc, rtol=1e-9, atol=1e-12):
+            return (dict(sig, clause="evaluation-documented", when=when), "%s %s: cdf(x) = %r but the documented formula with the reported parameters %r gives %r"
+                    % (cname, when, np.asarray(o.cdf(x)).tolist(), pars, np.asarray(doc).tolist()))
+        if cname == "VonMisesDistribution":
+            mu = pars["mu"]
+            c0, q0 = float(o.cdf(mu)), float(o.icdf(0.5))
+            if abs(c0 - 0.5) > 1e-12 or abs(q0 - mu) > 1e-9 * max(1.0, abs(mu)):
+                return (dict(sig, clause="evaluation-documented", when=when), "von Mises %s with reported mu = %r: cdf(mu) = %r, icdf(0.5) = %r" % (when, mu, c0, q0))
+        return None
+    iv = independent(obj, "after construction")
+    if iv is not None:
+        return iv
     if case.get("fit") and len(fixed) < len(ps):
         data = sample_for(cname, th, case["n"], case["seed"]) if case["data"] == "own" else other_data(cname, case["n"], case["seed"])
         method = case.get("method", "mle")
@@ -61,6 +82,9 @@ def oracle(case):
         for p in ps:
             if not np.isfinite(float(after[p])):
                 return (dict(sig, clause="fit-nonfinite", param=p), "after fit %s is not finite" % p)
+        iv = independent(obj, "after fit")
+        if iv is not None:
+            return iv
         # (a fixed Weibull location at or above the smallest observation leaves no admissible parameter vector: likelihood -inf
         #  everywhere, nothing to estimate -- not judged)
         infeasible = cname == "WeibullDistribution" and "gamma" in fixed and float(np.min(data)) <= float(fixed["gamma"])
